@@ -361,6 +361,7 @@ void readVector(std::istream &is, std::vector<VecType> &x){
         for(auto &i : x) is >> i;
     }else{
         is.read((char*) x.data(), x.size() * sizeof(VecType));
+        if (is.fail()) throw std::runtime_error("ERROR: wrong binary file format, the stream ended before all the data was read (truncated file)");
     }
 }
 
@@ -396,6 +397,7 @@ Val readNumber(std::istream &is){
         is >> v;
     }else{
         is.read((char*) &v, sizeof(Val));
+        if (is.fail()) throw std::runtime_error("ERROR: wrong binary file format, the stream ended before all the data was read (truncated file)");
     }
     return v;
 }
